@@ -27,27 +27,14 @@ func runC14(c *Ctx) {
 
 	// ---- N1 listener channel = input side of an unbounded queue --------------------------
 	nReg := 0
-	for _, f := range c.Funcs(dagsyncPkg) {
-		instrsDeep(f.SSA, func(g *ssa.Function, in ssa.Instruction) {
-			var chv ssa.Value
-			var pos token.Pos
-			switch in := in.(type) {
-			case *ssa.Send:
-				if x := c.E(in.Chan); x.Op == "field" && x.Name == "addEventChan" {
-					chv, pos = in.X, in.Pos()
-				}
-			case *ssa.Select:
-				for _, st := range in.States {
-					if x := c.E(st.Chan); x.Op == "field" && x.Name == "addEventChan" && st.Send != nil {
-						chv, pos = st.Send, in.Pos()
-					}
-				}
+	{
+		for _, ss := range c.SendSites(dagsyncPkg) {
+			if cx := strip(ss.Chan); cx.Op != "field" || cx.Name != "addEventChan" {
+				continue
 			}
-			if chv == nil {
-				return
-			}
+			g, in, pos := ss.Fn, ss.At, ss.Pos
 			nReg++
-			x := c.E(chv)
+			x := ss.Val
 			if r := c.ReachingStore(x, in); r != nil {
 				x = r
 			}
@@ -56,7 +43,7 @@ func runC14(c *Ctx) {
 			isIn := ok && strings.Contains(strip(x).Name, ").In[")
 			if !isIn {
 				c.Bad("C14.N1-unbounded-listener", key, pos, "channel registered with the distributor is not the input side of a chanqueue: "+x.String())
-				return
+				continue
 			}
 			// New called with no options (variadic slice is nil)
 			noOpts := true
@@ -80,7 +67,7 @@ func runC14(c *Ctx) {
 				}
 			}
 			c.Check(rets > 0, "C14.N1-unbounded-listener", key+" › returned channel", pos, "every return hands out Out() of the same queue", "a return path hands out a channel that is not the output side of the registered queue")
-		})
+		}
 	}
 	c.Floor("C14.N1-unbounded-listener", 2)
 
